@@ -138,6 +138,10 @@ type analysis struct {
 	Accepted []acceptedSite
 	// MayNil: functions (FullName#result) that may return a nil pointer / interface with a nil error
 	MayNil []string
+	// HeldSends: handler-package mutexes held across a write to the session (lockfacts.go)
+	HeldSends []heldSend
+	// Cancels: context.With… calls and whether `defer cancel()` follows at once (gofacts.go)
+	Cancels []cancelFact
 	// Pages: iterators that turn pages (gofacts.go)
 	Pages []pageTurn
 }
@@ -201,6 +205,10 @@ func analyseScope(repo string, scope map[string]func(file string) bool, allowTex
 		}
 		an.Gos = append(an.Gos, goFactsOf(l, scope[rel], fset)...)
 		an.Pages = append(an.Pages, pageTurnsOf(l, scope[rel])...)
+		an.Cancels = append(an.Cancels, cancelFactsOf(l, scope[rel])...)
+		if rel != "" {
+			an.HeldSends = append(an.HeldSends, heldAcrossSend(l, scope[rel])...)
+		}
 		pkgName := l.Pkg.Name()
 		for i, file := range l.Files {
 			if filter != nil && !filter(l.Names[i]) {
@@ -261,6 +269,8 @@ func Facts(repo string) (string, error) {
 		b.WriteString(leanLockFacts(nil, err))
 		b.WriteString(leanGoFacts(nil, false))
 		b.WriteString(leanPageTurns(nil, false))
+		b.WriteString(leanHeldSends(nil, false))
+		b.WriteString("def cancels : List (String × Bool) := []\n")
 		b.WriteString("def acceptedSizes : List (String × String × String) := []\n")
 		b.WriteString("end XmppModel.Generated.C09\n")
 		return b.String(), nil
@@ -294,6 +304,15 @@ func Facts(repo string) (string, error) {
 	}
 	b.WriteString(leanGoFacts(an.Gos, true))
 	b.WriteString(leanPageTurns(an.Pages, true))
+	b.WriteString(leanHeldSends(an.HeldSends, true))
+	b.WriteString("/-- context.With… in scope: (function, is `defer cancel()` the next statement) -/\ndef cancels : List (String × Bool) := [")
+	for i, cf := range an.Cancels {
+		if i > 0 {
+			b.WriteString(", ")
+		}
+		fmt.Fprintf(&b, "(%q, %v)", cf.Fn, cf.Deferred)
+	}
+	b.WriteString("]\n")
 	b.WriteString("/-- size-dependent partial operations accepted without a hazard: (function, kind, expression text) -/\n")
 	b.WriteString("def acceptedSizes : List (String × String × String) := [\n")
 	for i, a := range an.Accepted {
